@@ -21,7 +21,7 @@ from pathlib import Path
 from lib import S, B, observe_call
 
 GEN = ["NameCleanerParams", "RegistryParams", "RecfmParams", "EstructParams", "Cp037", "TextCodec"]
-RULE = ("streams: shapes = every table shape 1..3 columns x 0..2 rows (exhaustive over shapes, distinct cell labels) in CSV, TAB, XLSX, "
+RULE = ("streams: long = one table of 1650 (thorough: up to 4000) rows whose fixed-width / EBCDIC images exceed the 32 KiB read buffer, as CSV, fixed text and EBCDIC (RECFM N and F); shapes = every table shape 1..3 columns x 0..2 rows (exhaustive over shapes, distinct cell labels) in CSV, TAB, XLSX, "
         "ODS, NDJSON, fixed text, EBCDIC (RECFM N, F with and without lrecl); plain = workbooks of 1-3 sheets, tables 1-6 columns with "
         "distinct header names sampled from a pool (blanks, punctuation, quotes, commas, tabs, non-ASCII) x 0-8 rows of non-empty "
         "text cells from a pool (quotes, commas, tabs, leading zeros, leading/trailing blanks, Latin-1 and non-Latin-1 letters, a line "
@@ -143,6 +143,12 @@ def inputs(ctx):
             rows = [[f"r{r}-{j}" for j in range(len(header))] for r in range(2)]
             yield "anchors", {"kind": "plain", "numbers": [["S", "T"]] if i < 2 and len(header) == 2 else [],
                               "tables": [{"name": "Sheet1", "header": header, "rows": rows, "widths": []}]}
+    # a table long enough for the fixed-format files to exceed the readers' 32 KiB buffer, with a record length that does not
+    # divide it: rows numbered in every cell, so a lost, repeated or misaligned record is visible
+    for widths, m in (((7, 9, 5), 1650),) if quick else (((7, 9, 5), 1650), ((11, 2, 4), 4000), ((1, 30, 2), 1200)):
+        rows = [[f"a{i}"[:widths[0]], f"row-{i}"[:widths[1]], f"{i % 100000}"[:widths[2]]] for i in range(m)]
+        yield "long", {"kind": "cobol", "numbers": [], "only": ["csv", "fixed"],
+                       "tables": [{"name": "Sheet1", "header": ["REC-KEY", "CUST-NM", "AMT"], "rows": rows, "widths": list(widths)}]}
     n_plain, n_cobol, n_num = (40, 40, 16) if quick else (300, 300, 100)
     for i in range(n_plain):
         yield "plain", _workbook(rng, "plain", i < n_num // 2)
